@@ -266,10 +266,20 @@ class SimInverter:
                 return codec.rtu_write_response(addr, fc, body[1], body[2])
             return codec.rtu_exception(addr, fc, body[1])
         if body[0] == "read":
-            return codec.tcp_read_response(p["tx"], addr, body[1])
+            return self._mbap_quirk(codec.tcp_read_response(p["tx"], addr, body[1]))
         if body[0] == "write":
-            return codec.tcp_write_response(p["tx"], addr, fc, body[1], body[2])
-        return codec.tcp_exception(p["tx"], addr, fc, body[1])
+            return self._mbap_quirk(codec.tcp_write_response(p["tx"], addr, fc, body[1], body[2]))
+        return self._mbap_quirk(codec.tcp_exception(p["tx"], addr, fc, body[1]))
+
+    def _mbap_quirk(self, frame: bytes) -> bytes:
+        """GoodWe devices are known to announce a wrong Modbus/TCP message length (the library ignores the field for
+        that reason): `mbap_len` None = correct, 'data' = counts only the register data, 'six' = echoes the request's
+        6, 'big' = too large."""
+        q = getattr(self, "mbap_len", None)
+        if q is None:
+            return frame
+        n = {"data": max(0, len(frame) - 9), "six": 6, "big": len(frame) + 20}[q]
+        return frame[:4] + bytes((n >> 8, n & 0xFF)) + frame[6:]
 
     # ------------------------------------------------------------------ AA55
     def _respond_aa55(self, p: dict, process: bool):
